@@ -370,3 +370,153 @@ func (m *MDB) String() string {
 	}
 	return sb.String()
 }
+
+// ---- multi-table queries ----------------------------------------------------------------------------
+
+// ColRef is a qualified column "table.col".
+type ColRef struct {
+	T string `json:"t"`
+	C string `json:"c"`
+}
+
+func (c ColRef) String() string { return c.T + "." + c.C }
+
+type JoinCond struct {
+	L ColRef `json:"l"`
+	R ColRef `json:"r"`
+}
+
+// JoinQuery: SELECT <cols|*> FROM t1 JOIN t2 ON l=r [WHERE ...]   (UseOn, exactly two tables)
+// or        SELECT <cols|*> FROM t1, t2[, t3] WHERE l=r AND ... AND <filters>.
+type JoinQuery struct {
+	Tables  []string   `json:"tables"`
+	UseOn   bool       `json:"use_on,omitempty"`
+	Conds   []JoinCond `json:"conds"`             // equality join conditions (the first one goes to ON when UseOn)
+	Filters []*Pred    `json:"filters,omitempty"` // leaves with qualified column names, AND-ed
+	Cols    []ColRef   `json:"cols,omitempty"`    // nil = *
+}
+
+func (q *JoinQuery) Values() []Val {
+	var out []Val
+	for _, f := range q.Filters {
+		out = append(out, *f.V)
+	}
+	return out
+}
+
+func (q *JoinQuery) NeedsPlan() bool {
+	for _, v := range q.Values() {
+		if _, ok := v.SQLLiteral(); !ok {
+			return true
+		}
+	}
+	return false
+}
+
+func (q *JoinQuery) SQL(placeholders bool) string {
+	lit := func(v Val) string {
+		if placeholders {
+			return v.PlaceholderLiteral()
+		}
+		t, ok := v.SQLLiteral()
+		if !ok {
+			panic("value has no SQL literal: " + v.String())
+		}
+		return t
+	}
+	var sb strings.Builder
+	sb.WriteString("SELECT ")
+	if len(q.Cols) == 0 {
+		sb.WriteString("*")
+	} else {
+		p := make([]string, len(q.Cols))
+		for i, c := range q.Cols {
+			p[i] = c.String()
+		}
+		sb.WriteString(strings.Join(p, ", "))
+	}
+	conds := q.Conds
+	if q.UseOn {
+		sb.WriteString(" FROM " + q.Tables[0] + " JOIN " + q.Tables[1] + " ON " + conds[0].L.String() + " = " + conds[0].R.String())
+		conds = conds[1:]
+	} else {
+		sb.WriteString(" FROM " + strings.Join(q.Tables, ", "))
+	}
+	var w []string
+	for _, c := range conds {
+		w = append(w, c.L.String()+" = "+c.R.String())
+	}
+	for _, f := range q.Filters {
+		w = append(w, f.Col+" "+f.Cmp+" "+lit(*f.V))
+	}
+	if len(w) > 0 {
+		sb.WriteString(" WHERE " + strings.Join(w, " AND "))
+	}
+	sb.WriteString(";")
+	return sb.String()
+}
+
+func (q *JoinQuery) String() string {
+	if q.NeedsPlan() {
+		vals := q.Values()
+		p := make([]string, len(vals))
+		for i, v := range vals {
+			p[i] = v.String()
+		}
+		return q.SQL(true) + " /* constants: " + strings.Join(p, ", ") + " */"
+	}
+	return q.SQL(false)
+}
+
+// Join evaluates the query naively (nested loops over the base rows).
+func (m *MDB) Join(q *JoinQuery, mode EvalMode) []Row {
+	tabs := make([]*MTable, len(q.Tables))
+	for i, n := range q.Tables {
+		tabs[i] = m.Tables[n]
+	}
+	cur := make([]Row, len(tabs))
+	lookup := func(c ColRef) Val {
+		for i, n := range q.Tables {
+			if n == c.T {
+				return cur[i][tabs[i].Def.ColIdx(c.C)]
+			}
+		}
+		panic("model: unknown table in " + c.String())
+	}
+	var out []Row
+	var rec func(i int)
+	rec = func(i int) {
+		if i == len(tabs) {
+			for _, c := range q.Conds {
+				l, r := lookup(c.L), lookup(c.R)
+				if l.Null || r.Null || Compare3(l, r) != 0 {
+					return
+				}
+			}
+			for _, f := range q.Filters {
+				parts := strings.SplitN(f.Col, ".", 2)
+				if !cmpHolds(f.Cmp, lookup(ColRef{parts[0], parts[1]}), *f.V, mode) {
+					return
+				}
+			}
+			var row Row
+			if len(q.Cols) == 0 {
+				for _, r := range cur {
+					row = append(row, r...)
+				}
+			} else {
+				for _, c := range q.Cols {
+					row = append(row, lookup(c))
+				}
+			}
+			out = append(out, row)
+			return
+		}
+		for _, r := range tabs[i].Rows {
+			cur[i] = r
+			rec(i + 1)
+		}
+	}
+	rec(0)
+	return out
+}
